@@ -410,8 +410,61 @@ func gv4(w *World, r *Report) {
 		set := w.findCall(fz, "recv.frozenLedger.SetFinality(p0)")
 		closed := "(p0.GovProposalHeader.EndVotingHeight < ^p0)"
 		ok := del != nil && upd != nil && set != nil && w.condCanonHolds(del.Block(), closed, 1) && w.condCanonHolds(upd.Block(), closed, 1) && instrDominates(del, upd)
-		r.Check(ok, "Gv-4", "freeze:after-window", "a proposal leaves voting (and is tallied) only when its end height is below the current height", "a proposal is closed before its voting window has ended", fnSite(w, fz))
 		okF := set != nil && upd != nil && w.condCanonHolds(set.Block(), "(p0.UpdateMajorOption() != nil)", 1)
+		if !ok || !okF {
+			// the three steps in a helper of the controller: decided on the callback's paths
+			// (helpers expanded) under facts about the window and about the tally's answer
+			fev := func(in ssa.Instruction) string {
+				c, isC := in.(ssa.CallInstruction)
+				if !isC {
+					return ""
+				}
+				switch w.canonCall(c.Common(), 0) {
+				case "recv.proposalLedger.DelFinality(p0.Key())":
+					return "DEL"
+				case "p0.UpdateMajorOption()":
+					return "UPD"
+				case "recv.frozenLedger.SetFinality(p0)":
+					return "SET"
+				}
+				return ""
+			}
+			open := w.runUnder(fz, nil, fev, A("p0.GovProposalHeader.EndVotingHeight", ">=", "^p0"))
+			okOpen := open.complete && open.allConsulted && open.ok > 0
+			for _, evs := range open.okEvents {
+				if len(evs) > 0 {
+					okOpen = false
+				}
+			}
+			all := w.runUnder(fz, nil, fev)
+			okSeq, nFrozen := all.complete, 0
+			for _, evs := range all.okEvents {
+				j := strings.Join(evs, ",")
+				switch j {
+				case "", "DEL,UPD":
+				case "DEL,UPD,SET":
+					nFrozen++
+				default:
+					okSeq = false
+				}
+			}
+			noMajor := w.runUnder(fz, nil, fev, AR(`^p0\.UpdateMajorOption\(\)$`, "==", `^nil$`))
+			okNM := noMajor.complete && noMajor.allConsulted
+			for _, evs := range noMajor.okEvents {
+				for _, e := range evs {
+					if e == "SET" {
+						okNM = false
+					}
+				}
+			}
+			if okOpen && okSeq && nFrozen > 0 {
+				ok = true
+			}
+			if okNM && okSeq && nFrozen > 0 {
+				okF = true
+			}
+		}
+		r.Check(ok, "Gv-4", "freeze:after-window", "a proposal leaves voting (and is tallied) only when its end height is below the current height", "a proposal is closed before its voting window has ended", fnSite(w, fz))
 		r.Check(okF, "Gv-4", "freeze:only-with-majority", "only a proposal with a major option is kept for application", "a proposal without a major option is frozen for application", fnSite(w, fz))
 	}
 	um := needFn(r, "Gv-4", w, fref{pkgProp, "GovProposal", "updateMajorOption"})
@@ -454,6 +507,38 @@ func gv4(w *World, r *Report) {
 			}
 			return strings.HasSuffix(w.Canon(v), "p0.MajorOption.Option()") || strings.HasSuffix(w.CanonI(v), "p0.MajorOption.Option()")
 		}
+		// the option itself, also when it reaches a helper as a parameter
+		var isOptionDeep func(v ssa.Value, in *ssa.Function, d int) bool
+		isOptionDeep = func(v ssa.Value, in *ssa.Function, d int) bool {
+			if isOption(v) {
+				return true
+			}
+			for {
+				v = stripConv(v)
+				if cv, ok := v.(*ssa.Convert); ok {
+					v = cv.X
+					continue
+				}
+				break
+			}
+			if d > 3 || in == nil || in == af.fn {
+				return false
+			}
+			pi := paramIndexIn(in, v)
+			if pi < 0 {
+				return false
+			}
+			n := 0
+			for _, h := range w.withModuleCallees(af.fn, 2) {
+				for _, cs := range w.callsToFn(h, in) {
+					n++
+					if !isOptionDeep(cs.Common().Args[pi], h, d+1) {
+						return false
+					}
+				}
+			}
+			return n > 0
+		}
 		notValid := func(b *ssa.BasicBlock) bool {
 			// json.Valid(option) is false here, or decoding the option's own text has failed
 			if w.condHolds(b, -1, func(c ssa.Value) bool {
@@ -472,12 +557,13 @@ func gv4(w *World, r *Report) {
 				if !isK || !k.IsNil() || !isC || callName(call.Common()) != "Unmarshal" || len(call.Common().Args) != 2 {
 					return false
 				}
-				return isOption(call.Common().Args[0])
+				return isOptionDeep(call.Common().Args[0], call.Parent(), 0)
 			})
 		}
 		nDoc := 0
 		bad := ""
-		for _, g := range w.withModuleCallees(af.fn, 1) {
+		scope := w.withModuleCallees(af.fn, 2)
+		for _, g := range scope {
 			for _, c := range CallsIn(g) {
 				if obj := calleeObj(c.Common()); obj == nil || obj.Pkg() == nil || !strings.HasSuffix(obj.Pkg().Path(), "/json") || obj.Name() != "Unmarshal" {
 					continue
@@ -487,8 +573,9 @@ func gv4(w *World, r *Report) {
 					continue
 				}
 				nDoc++
-				var leaves func(v ssa.Value, at *ssa.BasicBlock, d int)
-				leaves = func(v ssa.Value, at *ssa.BasicBlock, d int) {
+				c := c
+				var leaves func(v ssa.Value, in *ssa.Function, at *ssa.BasicBlock, guarded bool, d int)
+				leaves = func(v ssa.Value, in *ssa.Function, at *ssa.BasicBlock, guarded bool, d int) {
 					for {
 						v = stripConv(v)
 						if cv, ok := v.(*ssa.Convert); ok {
@@ -497,16 +584,28 @@ func gv4(w *World, r *Report) {
 						}
 						break
 					}
-					if ph, ok := v.(*ssa.Phi); ok && d < 4 {
+					if d > 6 {
+						bad = "the document decoded at " + w.InstrPos(c) + " could not be followed to its source"
+						return
+					}
+					if ph, ok := v.(*ssa.Phi); ok {
 						for i, e := range ph.Edges {
-							leaves(e, ph.Block().Preds[i], d+1)
+							leaves(e, in, ph.Block().Preds[i], guarded || notValid(ph.Block().Preds[i]), d+1)
 						}
 						return
 					}
-					if g != af.fn {
-						if pi := paramIndexIn(g, v); pi >= 0 {
-							for _, cs := range w.callsToFn(af.fn, g) {
-								leaves(cs.Common().Args[pi], cs.Block(), d+1)
+					// a helper's parameter: the arguments at its call sites below the callback
+					if in != af.fn {
+						if pi := paramIndexIn(in, v); pi >= 0 {
+							n := 0
+							for _, h := range scope {
+								for _, cs := range w.callsToFn(h, in) {
+									n++
+									leaves(cs.Common().Args[pi], h, cs.Block(), guarded, d+1)
+								}
+							}
+							if n == 0 {
+								bad = "the document decoded at " + w.InstrPos(c) + " is a parameter of " + w.FName(in) + " without a call below the apply callback"
 							}
 							return
 						}
@@ -515,15 +614,15 @@ func gv4(w *World, r *Report) {
 						return
 					}
 					blk := at
-					if in, ok := v.(ssa.Instruction); ok && in.Block() != nil {
-						blk = in.Block()
+					if ins, ok := v.(ssa.Instruction); ok && ins.Block() != nil {
+						blk = ins.Block()
 					}
-					if blk != nil && (notValid(blk) || (at != nil && notValid(at))) {
+					if guarded || (blk != nil && notValid(blk)) || (at != nil && notValid(at)) {
 						return
 					}
 					bad = "the document decoded at " + w.InstrPos(c) + " may be " + w.Canon(v) + ", which is not the text validation accepted"
 				}
-				leaves(a[0], c.Block(), 0)
+				leaves(a[0], g, c.Block(), notValid(c.Block()), 0)
 			}
 		}
 		if nDoc == 0 {
@@ -760,6 +859,9 @@ type applyFlowVerdict struct {
 	dueWhy, docWhy, persWhy string
 }
 
+// the parameters recorded are what a helper of the package computed from the option it was given
+var reDecodeHelper = mustRe(`^gov\.\w+\((.*[^\w])?p0\.MajorOption\.Option\(\)\)*\)#0$`)
+
 var (
 	reApDel   = mustRe(`^recv\.frozenLedger\.DelFinality\(p0\.Key\(\)\)$`)
 	reApMerge = mustRe(`^types\.MergeGovParams\(recv\.GovParams, (.*)\)$`)
@@ -860,7 +962,8 @@ func (w *World) applyFlow() *applyFlowVerdict {
 		okDoc := false
 		for _, u := range unm {
 			parts := strings.SplitN(u, "\x01", 2)
-			if len(parts) == 2 && parts[0] == set[0] && strings.Contains(parts[1], "p0.MajorOption.Option()") && pos["UNM"] < pos["MERGE"] {
+			sameObj := len(parts) == 2 && (parts[0] == set[0] || reDecodeHelper.MatchString(set[0]))
+			if sameObj && strings.Contains(parts[1], "p0.MajorOption.Option()") && pos["UNM"] < pos["MERGE"] {
 				okDoc = true
 			}
 		}
